@@ -360,10 +360,20 @@ class JavaFE:
         self.steps = 0
 
     # ------------------------------------------------------------------ class helpers
-    def find_class(self, packet):
-        names = {c.split('/')[-1].split('$')[-1]: c for c in self.classes}
-        n = find(list(names), packet.name)
-        return self.classes[names[n]] if n else None
+    def find_class(self, packet, parent=None):
+        cands = [c for c in self.classes if norm(c.split('/')[-1].split('$')[-1]) == norm(packet.name)]
+        if not cands:
+            return None
+        if len(cands) > 1:
+            if parent is not None:
+                inner = [c for c in cands if c.startswith(parent.name + '$')]
+                if inner:
+                    return self.classes[inner[0]]
+            top = [c for c in cands if '$' not in c.split('/')[-1]]
+            if len(top) == 1:
+                return self.classes[top[0]]
+            raise Unsupported('ambiguous class name %s' % packet.name)
+        return self.classes[cands[0]]
 
     def inst_fields(self, cls):
         return [(n, d) for n, d, st in cls.fields if not st]
@@ -1121,8 +1131,8 @@ class JavaFE:
             if sem[0] == 'checksum':
                 self.cks_hint = (WIDTH[sem[1]], sem[1].startswith('i'))
 
-    def to_lang(self, packet, msg):
-        c = self.find_class(packet)
+    def to_lang(self, packet, msg, parent=None):
+        c = self.find_class(packet, parent)
         if c is None:
             raise MissingMember('class for packet %s' % packet.name)
         self.ensure_init(c.name)
@@ -1135,13 +1145,13 @@ class JavaFE:
             v = msg.v[f.name]
             if f.repeat:
                 lst = JList()
-                lst.items = [self.elem_to_lang(sem, x, None) for x in v]
+                lst.items = [self.elem_to_lang(sem, x, None, c) for x in v]
                 o.f[fn] = lst
             else:
-                o.f[fn] = self.elem_to_lang(sem, v, fd)
+                o.f[fn] = self.elem_to_lang(sem, v, fd, c)
         return o
 
-    def elem_to_lang(self, sem, v, fd):
+    def elem_to_lang(self, sem, v, fd, parent=None):
         if sem[0] in ('basic', 'lengthof', 'checksum'):
             t = sem[1]
             signed = t.startswith('i')
@@ -1175,7 +1185,7 @@ class JavaFE:
         if sem[0] in ('fixed', 'dyn'):
             return JStr(v)
         if sem[0] == 'obj':
-            return self.to_lang(sem[1], v)
+            return self.to_lang(sem[1], v, parent)
         if sem[0] == 'match':
             return self.to_lang(v.packet, v)
         raise ValueError(sem)
